@@ -59,6 +59,7 @@ def apply (x : Ctx) (s : St) (point : String) (arg : String) : Except String St 
   | "init" | "resume" | "size" | "show" | "sync" => .ok s
   | "inject" => doStep x s (.inject (unhex arg)) "inject"
   | "readerr" => doStep x s .setFault "setFault"
+  | "userquit" => doStep x s .closeUserQuit "closeUserQuit"   -- the application closes the quit channel it gave to ChannelEvents
   | "notify" => do
       let s ← ck (nth v 0 == s.resizeQ) s!"len(resizeQ) reported {nth v 0}, model {s.resizeQ}" s
       doStep x s .notify "notify"
